@@ -283,6 +283,9 @@ type FaultJob struct {
 	// number NestedAt (two reports alive in one process)
 	Nested   *FaultJob `json:"nested,omitempty"`
 	NestedAt int       `json:"nested_at,omitempty"`
+	// Parallel: jobs that run side by side in goroutines of the server process; their command lines are parsed
+	// one after the other, then each waits at its first file read until all have arrived
+	Parallel []FaultJob `json:"parallel,omitempty"`
 }
 
 type ReaderState struct {
@@ -304,6 +307,7 @@ type FaultRes struct {
 	Readers  []ReaderState `json:"readers,omitempty"`
 	Died     string        `json:"died,omitempty"`
 	Nested   *FaultRes     `json:"nested,omitempty"`
+	Parallel []FaultRes    `json:"parallel,omitempty"`
 }
 
 type job struct {
@@ -325,7 +329,9 @@ type response struct {
 // Server is one job-server process with its own scratch directory. Not safe
 // for concurrent use: each worker goroutine owns one.
 type Server struct {
-	Primed int
+	// ExtraEnv is added to the environment of the server process (set before the first job)
+	ExtraEnv []string
+	Primed   int
 	hr     string
 	Dir    string
 	cmd    *exec.Cmd
@@ -356,7 +362,7 @@ func NewServer(hr, dir string) (*Server, error) {
 func (s *Server) start() error {
 	cmd := exec.Command(s.hr)
 	cmd.Dir = s.Dir
-	cmd.Env = append(BaseEnv(), "VERIF_SERVE=1")
+	cmd.Env = append(append(BaseEnv(), "VERIF_SERVE=1"), s.ExtraEnv...)
 	in, err := cmd.StdinPipe()
 	if err != nil {
 		return err
